@@ -36,6 +36,11 @@ def segs(path):
     return out
 
 
+def content_of(i):
+    """what the file with id i holds: its id, and - files come in all sizes - nothing more, a few kB or a few tens of kB"""
+    return 'c%d' % i + ['', '\n' + 'x' * 5000, '\n' + 'y' * 40000][i % 3]
+
+
 class Scene(object):
     """files that exist before staging, per location"""
     def __init__(self, rng, tree):
@@ -54,7 +59,7 @@ class Scene(object):
     def write(self):
         for p, i in self.files.items():
             os.makedirs(os.path.dirname(p), exist_ok=True)
-            with open(p, 'w') as f: f.write('c%d' % i)
+            with open(p, 'w') as f: f.write(content_of(i))
 
 
 def base_of(tree, tsbox, schema):
@@ -466,6 +471,7 @@ def run(ctx):
             dist['remote_pilot_runs'] = dist.get('remote_pilot_runs', 0) + remote
             scene.write()
             ids = {'c%d' % i: i for i in range(1, scene.n + 50)}
+            ids.update({content_of(i): i for i in range(1, scene.n + 50)})
             tasks = []
             for g in gts:
                 # short forms: the real expansion of each directive on its own, against the model
